@@ -61,7 +61,9 @@ func drawSeed(rt *rapid.T, examples []seedProg) seedProg {
 
 func drawSeedRaw(rt *rapid.T, examples []seedProg) seedProg {
 	pick := func(label string, n int) int { return rapid.IntRange(0, n-1).Draw(rt, label) }
-	switch rapid.IntRange(0, 12).Draw(rt, "seedkind") {
+	switch rapid.IntRange(0, 13).Draw(rt, "seedkind") {
+	case 13:
+		return seedProg{Src: genOperatorLadder(rt), Kind: "operator-ladder"}
 	case 12:
 		return seedProg{Src: genCoincidingNames(rt), Kind: "coinciding-names"}
 	case 11:
@@ -212,5 +214,78 @@ func genCoincidingNames(rt *rapid.T) string {
 	// the functions' names re-bound in their declaring scope while the old function values live on elsewhere:
 	// calling the old values must not touch the new bindings
 	fmt.Fprintf(&b, "%s holder = [fn1, sib, three];\nfn1 = \"rebound\";\nsib = 77;\n%s\nthree = 3;\n%s holder[1](\"?\");\n%s [fn1, sib];\nholder[0](%s);\n%s [fn1, sib];\n%s holder[2](0) + three;\n", V, "// the old values live on in holder", P, P, strings.Join(args, ", "), P, P)
+	return b.String()
+}
+
+// genOperatorLadder: printed expressions over small integers that put operators of all levels of the ladder next
+// to each other without parentheses — runs of different prefix operators, prefix operators next to ** and to
+// suffixes, shifts next to sums, comparisons next to bitwise operators.  Typed (integer / boolean) so that nearly
+// every line evaluates.
+func genOperatorLadder(rt *rapid.T) string {
+	var intE, boolE func(d int) string
+	leaf := func() string {
+		return rapid.SampledFrom([]string{"a", "b", "c", "0", "1", "2", "7", "arr[1]", "obj.k", "two()"}).Draw(rt, "leaf")
+	}
+	intE = func(d int) string {
+		if d <= 0 {
+			return leaf()
+		}
+		switch rapid.IntRange(0, 9).Draw(rt, "int") {
+		case 0, 1:
+			// a run of prefix operators, written one directly after the other (a blank between two minus signs)
+			n := rapid.IntRange(1, 4).Draw(rt, "prefixes")
+			t := ""
+			for i := 0; i < n; i++ {
+				op := rapid.SampledFrom([]string{"-", "~", "-", "~", "- "}).Draw(rt, "prefix")
+				if strings.HasSuffix(t, "-") && strings.HasPrefix(op, "-") {
+					t += " "
+				}
+				t += op
+			}
+			return t + intE(d-1)
+		case 2, 3, 4:
+			return intE(d-1) + " " + rapid.SampledFrom([]string{"+", "-", "*", "&", "|", "^"}).Draw(rt, "binop") + " " + intE(d-1)
+		case 5:
+			return intE(d-1) + " " + rapid.SampledFrom([]string{"<<", ">>"}).Draw(rt, "shift") + " " + fmt.Sprint(rapid.IntRange(0, 3).Draw(rt, "by"))
+		case 6:
+			return intE(d-1) + " ** " + rapid.SampledFrom([]string{"0", "1", "2", "3", "-1 ** 2", "~0 + 2"}).Draw(rt, "exp")
+		case 7:
+			return "(" + intE(d-1) + ")"
+		case 8:
+			return intE(d-1) + " % " + rapid.SampledFrom([]string{"3", "5", "7"}).Draw(rt, "mod")
+		default:
+			return leaf()
+		}
+	}
+	boolE = func(d int) string {
+		if d <= 0 {
+			return intE(0) + " < " + intE(0)
+		}
+		switch rapid.IntRange(0, 6).Draw(rt, "bool") {
+		case 0, 1:
+			return intE(d-1) + " " + rapid.SampledFrom([]string{"<", "<=", ">", ">=", "==", "!="}).Draw(rt, "cmp") + " " + intE(d-1)
+		case 2:
+			return "!" + boolE(d-1)
+		case 3:
+			return "!" + rapid.SampledFrom([]string{"-", "~", "!"}).Draw(rt, "under") + intE(d-1)
+		case 4:
+			return boolE(d-1) + " " + rapid.SampledFrom([]string{bn.KwAnd, "&&", bn.KwOr, "||"}).Draw(rt, "logic") + " " + boolE(d-1)
+		case 5:
+			return boolE(d-1) + " == " + boolE(d-1)
+		default:
+			return "(" + boolE(d-1) + ")"
+		}
+	}
+	var b strings.Builder
+	b.WriteString(bn.KwVar + " a = 5, b = 3, c = 2;\n" + bn.KwVar + " arr = [4, 6];\n" + bn.KwVar + " obj = {k: 9};\n" + bn.KwFun + " two() { " + bn.KwReturn + " 2; }\n")
+	n := rapid.IntRange(3, 8).Draw(rt, "lines")
+	for i := 0; i < n; i++ {
+		d := rapid.IntRange(1, 4).Draw(rt, "depth")
+		if rapid.IntRange(0, 2).Draw(rt, "boolean") == 0 {
+			b.WriteString(bn.KwPrint + " " + boolE(d) + ";\n")
+		} else {
+			b.WriteString(bn.KwPrint + " " + intE(d) + ";\n")
+		}
+	}
 	return b.String()
 }
